@@ -14,7 +14,7 @@ SPEC = dict(
              args=["--mode", "c18"], dist_keys=("status", "cfg"),
              nontrivial=lambda case, impl, kv: kv.get("status") == "ok", timeout=3000),
     ],
-    rule="idem: every .sw file under /repo (thorough: all 2045; quick: 330 seed-sampled) as it is and in 2-3 variants "
+    rule="idem: FIRST a generated-source stream (3636 small programs, the same in every run, each under the default config and one of max_width 60/140, hard_tabs, newline_threshold 2, newline_style Windows): every binary operator (^ | & + - * / % << >> == != < > <= >= && ||), unary operators, indexing, method chains, calls with many arguments, struct/array/tuple literals, each short and padded with long identifiers so that the line wraps at every nesting level, in let / return / tail / if / while / match / argument / field / array / tuple / assignment / nested-block position; every ordered pair of item kinds (use const fn struct enum impl trait abi storage configurable) with 0-3 blank lines between them and with `//` and `/* */` comments whose text ends in `;` `}` `{` `)` `,` or a word, with 0-2 blank lines before/after, at top of file, end of file, first/last in a block, after the last statement. THEN every .sw file under /repo (thorough: all 2045; quick: 330 seed-sampled) as it is and in 2-3 variants "
          "(blank lines, trailing blanks, re-indentation/tabs, CRLF, white space and `//`, `/* */`, `///` comments at "
          "arbitrary token boundaries and line ends; deterministic in seed+path), each under the default config and "
          "one (quick) / all (thorough, unmodified file) of: newline_style Windows/Unix, max_width 60/140, hard_tabs, "
